@@ -365,15 +365,8 @@ structure ToolReg where
 
 def findTool (tools : List ToolReg) (n : String) : Option ToolReg := tools.find? fun t => t.name = n
 
-/-- keyword arguments of a tool call: `{kw.arg: … for kw in keywords if kw.arg}` — `**` entries are skipped -/
-def walkToolKws (T : Tables) (env : Env) : List (Option String) → List Expr → R (List (String × Val))
-  | some n :: ns, e :: es =>
-    (walk T env e).bind fun v => (walkToolKws T env ns es).bind fun r => R.pure ((n, v) :: r)
-  | none :: ns, _ :: es => walkToolKws T env ns es
-  | _, _ => R.pure []
-
-/-- Python dict semantics of `{kw.arg: value for kw in keywords}`: a repeated key keeps its first position and
-    takes the last value -/
+/-- Python dict semantics of `kwargs[kw.arg] = value` in a loop: a repeated key keeps its first position and takes
+    the last value (unreachable through `toolPathway`, which refuses repeated keywords first) -/
 def dictOf (ks : List (String × Val)) : List (String × Val) :=
   ks.foldl (fun acc kv =>
     if acc.any (fun p => p.1 = kv.1) then acc.map (fun p => if p.1 = kv.1 then (p.1, kv.2) else p) else acc ++ [kv]) []
@@ -391,7 +384,8 @@ def toolPath (T : Tables) (env : Env) (tools : List ToolReg) (allowed : Option (
     | some t =>
       if capsOk allowed t then
         (walkList T env args).bind fun as =>
-        (walkToolKws T env kn kv).bind fun ks =>
+        -- keyword values in order; a `**mapping` argument is refused when it is reached (as for allow-listed calls)
+        (walkKws T env kn kv).bind fun ks =>
         R.act (.tool tn as (dictOf ks)) (env.tool tn as (dictOf ks))
       else R.fail "PermissionError"
   | .call _ _ _ _ => R.fail "ValueError: invalid tool call format"
